@@ -12,6 +12,7 @@ import (
 func main() {
 	logrus.SetOutput(io.Discard)
 	hx.Main(map[string]func(*hx.Ctx) error{
-		"probe": driveProbe,
+		"probe":        driveProbe,
+		"stubdispatch": driveDispatch,
 	})
 }
